@@ -93,7 +93,12 @@ func TestC12Seq(t *testing.T) {
 		acts["resize"] = func(t *rapid.T) {
 			f := file(t)
 			var sz uint64
-			switch rapid.IntRange(0, 4).Draw(t, "how") {
+			switch rapid.IntRange(0, 6).Draw(t, "how") {
+			case 5, 6:
+				// cut off less than a block (often across a block boundary)
+				if d := uint64(pick(t, []int{1, 7, 100, 1000, 2048, 4000, 4095}, "cut")); f.Size > d {
+					sz = f.Size - d
+				}
 			case 0:
 				sz = 0
 			case 1:
